@@ -236,6 +236,7 @@ func c19Query(path, rawQuery, form string) string {
 // ---- Getter -------------------------------------------------------------------
 
 type c19Getters struct {
+	n      int
 	q, b   jhttp.Getter
 	closed jhttp.Getter
 }
@@ -288,6 +289,10 @@ func (g *c19Getters) serve(parser, path, rawQuery, env string) (obs string) {
 		}
 	}()
 	req := c19ReqFromQuery(path, rawQuery)
+	// a Getter maps EVERY HTTP request to a call, whatever its method (no body here: the query is all there is)
+	g.n++
+	req.Method = []string{"GET", "GET", "DELETE", "PUT", "POST", "HEAD", "PATCH"}[g.n%7]
+	req.Body = http.NoBody // (net/http refuses to parse the form of a POST/PUT/PATCH whose Body is nil)
 	gt := g.q
 	if parser == "b" {
 		gt = g.b
